@@ -5,7 +5,7 @@
 (* after its uses), an unqualified import, a qualified import and the      *)
 (* built-in `concat`; every subset of binders x every use site.            *)
 (***************************************************************************)
-EXTENDS Resolve, Json
+EXTENDS Resolve, Json, IOUtils
 
 Marker(x) == Obj(<<Prop(x, Prim("num"))>>)
 
@@ -21,6 +21,10 @@ UseSite(site, n, P, R) ==
     [] site = "recfn" -> <<Decl("f", <<P>>, Rec(R, Obj(<<Prop("k", Arr(Var(n))), Prop("v", Var(P))>>))),
                            Let("u", App(Var("f"), <<Marker("p")>>))>>
     [] site = "qual"  -> <<Let("u", QVar("q", n))>>
+    \* a use AFTER a rec expression has ended: the rec binder (possibly of the same name) is out of scope again
+    [] site = "afterrec" -> <<Let("u", Obj(<<Prop("t", Rec(R, Obj(<<Prop("k", Arr(Var(R)))>>))), Prop("v", Var(n))>>))>>
+    [] site = "afterrecfn" -> <<Decl("f", <<P>>, Obj(<<Prop("t", Rec(R, Obj(<<Prop("k", Arr(Var(R)))>>))), Prop("v", Var(n))>>)),
+                                Let("u", App(Var("f"), <<Marker("p")>>))>>
 
 MainOf(n, U, Q, D, P, R, site) ==
   (IF U THEN <<Use("g")>> ELSE <<>>)
@@ -38,7 +42,7 @@ ProgOf(n, U, Q, D, P, R, site) ==
                 [] m = "h" -> ModH(n)]]
 
 Names == {"n", "concat"}
-Sites == {"top", "fn", "rec", "recfn", "qual"}
+Sites == {"top", "fn", "rec", "recfn", "qual", "afterrec", "afterrecfn"}
 
 ScopesFamily ==
   {ProgOf(n, U, Q, D, P, R, site) :
@@ -48,8 +52,13 @@ ScopesSmall ==
   {ProgOf("n", U, Q, D, P, R, site) :
      U \in BOOLEAN, Q \in BOOLEAN, D \in 0..2, P \in {"n", "p"}, R \in {"n", "z"}, site \in {"top", "fn", "rec", "qual"}}
 
+\* oracle mode: programs supplied by the driver (random composites)
+FilePrograms == ndJsonDeserialize(IOEnv.PROGRAMS)
+FileFamily == {FilePrograms[i] : i \in 1..Len(FilePrograms)}
+
 \* one CASE line per (program, module): the reference answer
-TableSeq(t) == LET s == CHOOSE f \in [1..Cardinality(t) -> t] : \A a, b \in 1..Cardinality(t) : a # b => f[a] # f[b] IN s
+RECURSIVE TableSeq(_)
+TableSeq(t) == IF t = {} THEN <<>> ELSE LET x == CHOOSE x \in t : TRUE IN <<x>> \o TableSeq(t \ {x})
 \* modules loaded for the main program (import chains have length <= 2 in this family)
 UsesOfMod(m) == {u.s : u \in {prog.mods[m][i] : i \in {j \in 1..Len(prog.mods[m]) : prog.mods[m][j].k = "use"}}}
 LoadedMods == LET A == {prog.main} \cup UsesOfMod(prog.main) IN A \cup UNION {UsesOfMod(m) : m \in A}
